@@ -39,6 +39,7 @@ type CallSpec struct { // clauses attached to the k-th call of a callee
 	Callee  string
 	N       int
 	Lemmas  []Clause // instantiated before the call
+	Inst    [][]Clause // instantiations of the callee's forall variables (each: list of name = expr)
 	Witness []Clause // named values captured right after the call
 	Asserts []Clause // intermediate obligations right after the call (then assumed)
 	After   []Clause // lemma instances right after the call
@@ -68,6 +69,7 @@ type FuncContract struct {
 	Lemmas   []Clause
 	Unfolds  []Clause // lemma instances assumed at function entry
 	Reveal   []string // opaque spec functions whose definitions this proof needs
+	Forall   []Param  // universally quantified ghost variables (arbitrary but fixed per verification)
 	Loops    map[int]*LoopSpec
 	Calls    []*CallSpec
 	Roles    []string
@@ -163,6 +165,7 @@ type Contracts struct {
 	Chans  []*ChanDecl
 	Ghosts map[string]*GhostDecl
 	Globals map[string]*GlobalDecl // pkgpath.Name
+	forallNames map[string]bool
 	Files  []string
 	Sha    map[string]string
 }
@@ -303,7 +306,7 @@ var topKeywords = map[string]bool{"func": true, "closure": true, "spec": true, "
 var clauseKeywords = map[string]bool{"requires": true, "ensures": true, "modifies": true, "safety": true, "pure": true,
 	"inline": true, "may_panic": true, "witness": true, "lemma": true, "role": true, "holds": true, "acquires": true,
 	"decreases": true, "loop": true, "invariant": true, "unfold": true, "method": true, "reads": true, "trusted": true,
-	"assumed": true, "terminates": true, "call": true, "hint": true, "anchor": true, "reveal": true, "assert": true, "after": true}
+	"assumed": true, "terminates": true, "call": true, "hint": true, "anchor": true, "reveal": true, "assert": true, "after": true, "forall": true, "inst": true}
 
 func firstWord(s string) string {
 	s = strings.TrimSpace(s)
@@ -490,6 +493,18 @@ func (cs *Contracts) parseFuncClauses2(fc *FuncContract, loop *LoopSpec, call *C
 		}
 	case "reveal":
 		fc.Reveal = append(fc.Reveal, splitTop(rest, ',')...)
+	case "forall":
+		fc.Forall = append(fc.Forall, parseParams(rest)...)
+	case "inst":
+		if call == nil {
+			fatalf("%s:%d: inst is only allowed in a call section", path, l.line)
+		}
+		var one []Clause
+		for _, part := range splitTop(rest, ',') {
+			k := strings.Index(part, "=")
+			one = append(one, Clause{Kind: "inst", Name: strings.TrimSpace(part[:k]), Text: part, Expr: parseExprAt(strings.TrimSpace(part[k+1:]), path, l.line), File: path, Line: l.line})
+		}
+		call.Inst = append(call.Inst, one)
 	case "modifies":
 		for _, m := range splitTop(rest, ',') {
 			if m == "" {
